@@ -379,7 +379,7 @@ theorem var_error (data : List (Fl M)) (X R : ℝ) (hX : ∀ a ∈ data, |a.val|
 /-- **Forward error of `sample_var`** (divisor `n − 1`). -/
 theorem sampleVar_error (data : List (Fl M)) (X R : ℝ) (hX : ∀ a ∈ data, |a.val| ≤ X)
     (hR : ∀ a ∈ data, ∀ b ∈ data, |a.val - b.val| ≤ R) (h1 : M.rnd 1 = 1)
-    (hrep : ∀ a ∈ data, a.Rep) (hn : 1 ≤ data.length)
+    (hrep : ∀ a ∈ data, a.Rep) (hn : 2 ≤ data.length)
     (h : ((4 * data.length : Nat) : ℝ) * M.u < 1) :
     ∃ v, sampleVar data = some v ∧
     |v.val - m2 (vals data) / ((data.length - 1 : Nat) : ℝ)| ≤
@@ -392,7 +392,7 @@ theorem sampleVar_error (data : List (Fl M)) (X R : ℝ) (hX : ∀ a ∈ data, |
     refine lt_of_le_of_lt (mul_le_mul_of_nonneg_right ?_ M.u_nonneg) h
     exact_mod_cast (by omega : 2 ≤ 4 * data.length)
   have := m2_div_error (welfordStatistics data).2.2 (data.length - 1) _ _ (m2_nonneg (vals data))
-    (welfordM2_error data X R hX hR h1 hrep hn h) h2
+    (welfordM2_error data X R hX hR h1 hrep (by omega) h) h2
   refine ⟨(welfordStatistics data).2.2 / ((data.length - 1 : Nat) : Fl M), ?_, this⟩
   unfold sampleVar
   simp only [welford_count]
